@@ -370,6 +370,11 @@ def runBeforeFix : Mode → Args → List Entry → Run := runWith listOutputsOn
 /-- The files a real run creates. -/
 def generated (a : Args) (entries : List Entry) : List OutPath := written (run .generate a entries).ops
 
+/-- A history of calls on the same runner / generator objects.  The objects carry no state that a listing or
+generating method changes (support resources, templates and the namespace tree are looked up afresh by every
+call), so the answer to each call is the answer of a first call. -/
+def runHistory (ms : List Mode) (a : Args) (entries : List Entry) : List Run := ms.map fun m => run m a entries
+
 /-! ## What a real run reads -/
 
 /-- Every loader name the built-in templates of the language pull in statically, as files. -/
